@@ -8,6 +8,8 @@ use discret::verif::security::Uid;
 use serde_json::{json, Value};
 use std::collections::BTreeMap;
 
+pub type NodeKeyId = discret::verif::security::Uid;
+
 #[derive(Clone, Debug, Default)]
 pub struct Snapshot {
     /// key: (id, entity)
